@@ -235,18 +235,25 @@ SMALL_ADDR = (37, 63)
 SMALL_INST = (0, 31)
 
 
-def h_map_history(ctx, steps):
+def h_map_history(ctx, steps, concrete=False):
     """The library's mapper exactly as it is (nothing replaced), driven through its public methods with
     concrete keys from a small set while the frame stays symbolic (its address / instance fields limited to
     the small sets plus one value that is never in the map): look up before the entry exists, add it, look
     up again, add a second entry (possibly for the same key, possibly for the same device), look up again;
     retry_decode of the first, ambiguous result after every change.  steps = the operations after the first
     lookup, from 'add', 'add2', 'clear'."""
-    x = ctx.fresh("x", 0, 0xFFFFFF)
-    ctx.assume(E.eq(x & 0x818000, 0x008000))
+    if concrete:
+        # concrete frames (a decoder that keys a cache by the frame's number would have to hash a symbolic one)
+        reps = [(sa << 17) | 0x8000 | (inst << 10) | d for sa in SMALL_ADDR + (5,) for inst in SMALL_INST + (9,)
+                for d in (0, 0x155)]
+        x = reps[ctx.fresh_choice("xi", len(reps))]
+    else:
+        x = ctx.fresh("x", 0, 0xFFFFFF)
+        ctx.assume(E.eq(x & 0x818000, 0x008000))
     r = ref.decode_source(x)
-    ctx.assume(E.or_(*[E.eq(r.short, v) for v in SMALL_ADDR + (5,)]))
-    ctx.assume(E.or_(*[E.eq(r.inst_number, v) for v in SMALL_INST + (9,)]))
+    if not concrete:
+        ctx.assume(E.or_(*[E.eq(r.short, v) for v in SMALL_ADDR + (5,)]))
+        ctx.assume(E.or_(*[E.eq(r.inst_number, v) for v in SMALL_INST + (9,)]))
     m = helpers.DeviceInstanceTypeMapper()
     entries = []
 
@@ -324,7 +331,8 @@ def h_map_history(ctx, steps):
 def cases(tier):
     cs = [Case("nomap", h_nomap, {}), Case("map", h_map, {}),
           Case("map-history-add", h_map_history, {"steps": ("add",)}),
-          Case("map-history-add-clear-add", h_map_history, {"steps": ("add", "clear", "add")})]
+          Case("map-history-add-clear-add", h_map_history, {"steps": ("add", "clear", "add")}),
+          Case("map-history-concrete", h_map_history, {"steps": ("add", "clear", "add"), "concrete": True})]
     if tier == "thorough":
         cs.append(Case("map-history-add-add", h_map_history, {"steps": ("add", "add2")}))
     if tier == "thorough":
